@@ -13,11 +13,32 @@
                                 FRU id 0..255, device limit ≥ 2 enforced by C8/C9/CA (or ≥ 1 served
                                 short): read_fru_data returns exactly the stored slice.
   * `read_full_exact`         — read_fru_data_full returns the whole inventory area.
-  * `requests_name_fru`       — for EVERY operation (range read, full read, write, header, the three
-                                info areas, multirecord area, whole inventory — intended variant;
-                                `_read_fru_area` with and without the area-length check of
-                                fixes/C15-2.diff), EVERY transport (any peer behaviour), every request
-                                on the wire carries the caller's FRU id.
+  * `read_exact_any_range`    — the read clause for EVERY form of the call `read_fru_data(offset=None,
+                                count=None, fru_id)` (repaired variant `rangeFix`): the bytes from `offset or 0`,
+                                `count` of them or - count left out - all up to the end of the inventory area;
+                                `read_asks_only_for_the_range` (any peer: a range read requests bytes of
+                                [offset, offset+count) only).
+  * `half_range_as_pinned`    — COUNTER-EXAMPLE for the pinned source: `read_fru_data(count=8)` returns all 16
+                                bytes after a Get FRU Inventory Area Info; `read_fru_data(offset=8)` is a
+                                TypeError (fixes/C10-2.diff).
+  * `absent_area_is_none`, `absent_multirecord_is_none` — an area the common header declares ABSENT (offset byte
+                                00h, Storage Definition §8): the getter (repaired variant) yields `None`; the
+                                world is the one the 8-byte header read leaves and every request asked for
+                                header bytes [0, 8) of the named FRU only.
+  * `present_area_exact`      — a PRESENT info area: the getter hands its parser exactly the stored area
+                                (`Spec.Fru.infoArea`: 8 × length byte from the header's offset), any variant.
+  * `present_multirecord_exact` — a PRESENT multirecord area: exactly the records up to and including the
+                                end-of-list record (`Spec.Fru.recordsEnd`), any variant that passes the FRU id on.
+  * `absent_area_as_pinned_returns_inventory`, `absent_multirecord_as_pinned_type_error` — COUNTER-EXAMPLES for
+                                the pinned source: `get_fru_chassis_area` on a FRU without chassis area asks
+                                for the inventory size, reads the whole inventory twice and hands all of it to
+                                the chassis parser; `get_fru_multirecord_area` ends in a TypeError.
+  * `requests_name_fru`       — for EVERY operation (range read in every optional-argument form, full read,
+                                write, header, the three info areas, multirecord area, whole inventory), EVERY
+                                variant with the FRU id passed on (`_read_fru_area` with and without the
+                                area-length check of fixes/C15-2.diff, getters with and without the absent-area
+                                guard, either form of `read_fru_data`), EVERY transport (any peer behaviour),
+                                every request on the wire carries the caller's FRU id.
   * `write_exact`             — write_fru_data stores exactly the given bytes contiguously from the
                                 offset and touches no other FRU.
   * `write_count_mismatch_raises` — for EVERY peer: write_fru_data returns normally only if every
@@ -43,6 +64,7 @@
                                 FRU 0 and returns FRU 0's record (fixes/C10-1.diff).
 -/
 import PyIpmi.Lemmas.XferFru
+import PyIpmi.Lemmas.XferFruArea
 import PyIpmi.Gen.Loops10
 namespace PyIpmi.Props.C10
 open PyIpmi PyIpmi.FruXfer PyIpmi.Spec.Fru
@@ -64,9 +86,165 @@ theorem read_full_exact (d : FruDev) (hd : DevOk d) (id : Nat) (c : List Nat) (t
     (readFruDataFull fruCfg respond ⟨d, tr⟩ id).out = .ok c :=
   (readFruDataFull_exact fruCfg constants_ok d hd id c hid hg h64 ⟨d, tr⟩ rfl).1
 
+/-! ### every form of the call: `read_fru_data(offset=None, count=None, fru_id=0)` -/
+
+/-- The read clause for every form of the call (repaired variant, fixes/C10-2.diff): the requested range is
+`count` bytes from `offset or 0`, and - `count` left out - everything from there to the end of the inventory
+area.  `offset = some off, count = some cnt` is `read_exact`, both left out `read_full_exact`. -/
+theorem read_exact_any_range (d : FruDev) (hd : DevOk d) (id : Nat) (offset count : Option Nat) (c : List Nat)
+    (tr : List Xchg) (hid : id < 256) (hg : d.get id = some c)
+    (hrange : offset.getD 0 + count.getD (c.length - offset.getD 0) ≤ c.length) (h64 : c.length ≤ 65535) :
+    (readFruDataV true fruCfg respond ⟨d, tr⟩ offset count id).out =
+      .ok ((c.drop (offset.getD 0)).take (count.getD (c.length - offset.getD 0))) :=
+  (readFruDataV_exact fruCfg constants_ok d hd id c hid hg offset count hrange h64 ⟨d, tr⟩ rfl).1
+
+/-- the two half-specified forms spelled out: a count alone is that many bytes from the start, an offset alone
+everything behind it -/
+theorem read_half_ranges (d : FruDev) (hd : DevOk d) (id n : Nat) (c : List Nat) (tr : List Xchg)
+    (hid : id < 256) (hg : d.get id = some c) (hn : n ≤ c.length) (h64 : c.length ≤ 65535) :
+    (readFruDataV true fruCfg respond ⟨d, tr⟩ none (some n) id).out = .ok (c.take n) ∧
+    (readFruDataV true fruCfg respond ⟨d, tr⟩ (some n) none id).out = .ok (c.drop n) := by
+  have h1 := read_exact_any_range d hd id none (some n) c tr hid hg (by simpa using hn) h64
+  have h2 := read_exact_any_range d hd id (some n) none c tr hid hg (by simp; omega) h64
+  simp only [Option.getD_none, Option.getD_some, List.drop_zero] at h1 h2
+  refine ⟨h1, ?_⟩
+  rw [h2, List.take_of_length_le (by simp)]
+
+/-- for the forms with both arguments the two variants are the same function (`read_exact` speaks of both) -/
+theorem read_both_given (rangeFix : Bool) {σ} (send : Send σ) (w : World σ) (off cnt id : Nat) :
+    readFruDataV rangeFix fruCfg send w (some off) (some cnt) id = readFruData fruCfg send w (some off) cnt id :=
+  readFruDataV_some_some rangeFix fruCfg send w off cnt id
+
+/-- ANY peer: a range read requests bytes of `[offset, offset + count)` of the named FRU and nothing else
+(no Get FRU Inventory Area Info, no byte outside the range). -/
+theorem read_asks_only_for_the_range {σ} (send : Send σ) (dev : σ) (off cnt id : Nat) :
+    ReadsWithin id off (off + cnt) (readFruData fruCfg send ⟨dev, []⟩ (some off) cnt id).w.trace :=
+  readFruData_within fruCfg send id _ off cnt off (off + cnt) (by intro x hx; cases hx) (Nat.le_refl _) (Nat.le_refl _)
+
+/-- FRU 2: a common header that declares an internal use area at offset 8 and NO other area, then that area. -/
+def boardlessDev : FruDev :=
+  ⟨[(0, []), (2, [1, 1, 0, 0, 0, 0, 0, 0xFE, 1, 0xA1, 0xA2, 0xA3, 0xA4, 0xA5, 0xA6, 0xA7])], 32, 0xCA, false, 16⟩
+
+/-- COUNTER-EXAMPLE (pinned source): `read_fru_data(count=8, fru_id=2)` asks for the inventory size and
+returns all 16 bytes; `read_fru_data(offset=8, fru_id=2)` is a TypeError before any request.  Repaired: the
+first 8 resp. the last 8 bytes. -/
+theorem half_range_as_pinned :
+    (readFruDataV false fruCfg respond ⟨boardlessDev, []⟩ none (some 8) 2).out
+      = .ok [1, 1, 0, 0, 0, 0, 0, 0xFE, 1, 0xA1, 0xA2, 0xA3, 0xA4, 0xA5, 0xA6, 0xA7] ∧
+    ((readFruDataV false fruCfg respond ⟨boardlessDev, []⟩ none (some 8) 2).w.trace.map (·.req.cmd)) = [0x10, 0x11] ∧
+    (readFruDataV false fruCfg respond ⟨boardlessDev, []⟩ (some 8) none 2).out = .pyError "TypeError" ∧
+    (readFruDataV true fruCfg respond ⟨boardlessDev, []⟩ none (some 8) 2).out = .ok [1, 1, 0, 0, 0, 0, 0, 0xFE] ∧
+    (readFruDataV true fruCfg respond ⟨boardlessDev, []⟩ (some 8) none 2).out
+      = .ok [1, 0xA1, 0xA2, 0xA3, 0xA4, 0xA5, 0xA6, 0xA7] := by decide
+
+/-! ### the area getters: an area the common header declares absent, a present one -/
+
+/-- An info area whose offset byte in the common header is 00h ("this area is not present") - the getter
+(repaired variant) returns `None`: the FRU device stores no such area.  It costs the header read and nothing
+else: the world is the one `get_fru_inventory_header` leaves, every request asked for bytes of `[0, 8)`. -/
+theorem absent_area_is_none (d : FruDev) (hd : DevOk d) (id : Nat) (c : List Nat) (hid : id < 256)
+    (hg : d.get id = some c) (h64 : c.length ≤ 65535) (hh : headerOk c) (lenChk : Bool) (a : Area)
+    (habs : areaStart c a.spec = none) :
+    let r := getInfoArea fruCfg respond (Var.intended lenChk) ⟨d, []⟩ a id
+    r.out = .ok none ∧ r.w = (getHeader fruCfg respond ⟨d, []⟩ id).w ∧ r.w.dev = d ∧
+      ReadsWithin id 0 8 r.w.trace := by
+  have h := getInfoArea_absent fruCfg constants_ok d hd id c hid hg h64 hh (Var.intended lenChk) a
+    (by cases a <;> rfl) habs ⟨d, []⟩ rfl
+  have hw := (getHeader_exact fruCfg constants_ok d hd id c hid hg h64 hh ⟨d, []⟩ rfl).2
+  have hin := getHeader_within fruCfg respond id ⟨d, []⟩ (by intro x hx; cases hx)
+  refine ⟨h.1, h.2, ?_, ?_⟩
+  · rw [h.2]; exact hw
+  · rw [h.2]; exact hin
+
+/-- … and the multirecord getter on an inventory without multirecord area. -/
+theorem absent_multirecord_is_none (d : FruDev) (hd : DevOk d) (id : Nat) (c : List Nat) (hid : id < 256)
+    (hg : d.get id = some c) (h64 : c.length ≤ 65535) (hh : headerOk c) (lenChk : Bool)
+    (habs : areaStart c .multirecord = none) :
+    let r := getMultirecord fruCfg respond (Var.intended lenChk) ⟨d, []⟩ id
+    r.out = .ok none ∧ r.w = (getHeader fruCfg respond ⟨d, []⟩ id).w ∧ r.w.dev = d ∧
+      ReadsWithin id 0 8 r.w.trace := by
+  have h := getMultirecord_absent fruCfg constants_ok d hd id c hid hg h64 hh (Var.intended lenChk) rfl habs
+    ⟨d, []⟩ rfl
+  have hw := (getHeader_exact fruCfg constants_ok d hd id c hid hg h64 hh ⟨d, []⟩ rfl).2
+  have hin := getHeader_within fruCfg respond id ⟨d, []⟩ (by intro x hx; cases hx)
+  refine ⟨h.1, h.2, ?_, ?_⟩
+  · rw [h.2]; exact hw
+  · rw [h.2]; exact hin
+
+/-- A PRESENT info area (offset byte ≠ 00h, its 5-byte head and its declared length inside the inventory
+area; with the length check of fixes/C15-2.diff a length byte ≠ 00h): the getter hands its parser exactly the
+bytes of the area, `8 ×` the length byte from the offset the header names - in every variant. -/
+theorem present_area_exact (d : FruDev) (hd : DevOk d) (id : Nat) (c : List Nat) (hid : id < 256)
+    (hg : d.get id = some c) (h64 : c.length ≤ 65535) (hh : headerOk c) (v : Var) (a : Area) (o : Nat)
+    (hpres : areaStart c a.spec = some o) (h5 : o + 5 ≤ c.length)
+    (hfit : o + c.getD (o + 1) 0 * 8 ≤ c.length) (hlen : v.lenChk = true → c.getD (o + 1) 0 ≠ 0) (tr : List Xchg) :
+    (getInfoArea fruCfg respond v ⟨d, tr⟩ a id).out = .ok (infoArea c a.spec) ∧
+    infoArea c a.spec = some ((c.drop o).take (c.getD (o + 1) 0 * 8)) := by
+  refine ⟨(getInfoArea_present fruCfg constants_ok d hd id c hid hg h64 hh v a o hpres h5 hfit hlen ⟨d, tr⟩ rfl).1, ?_⟩
+  simp [infoArea, hpres]
+
+/-- A PRESENT multirecord area whose record list ends inside the inventory (`recordsEnd`: 5-byte headers,
+`record length` bytes each, up to and including the first record with the end-of-list bit): the getter hands
+its parser exactly these records - in every variant that passes the FRU id on. -/
+theorem present_multirecord_exact (d : FruDev) (hd : DevOk d) (id : Nat) (c : List Nat) (hid : id < 256)
+    (hg : d.get id = some c) (h64 : c.length ≤ 65535) (hh : headerOk c) (v : Var) (hv : v.mrShipped = false)
+    (o e : Nat) (hpres : areaStart c .multirecord = some o) (hend : recordsEnd c (c.length + 1) o = some e)
+    (tr : List Xchg) :
+    (getMultirecord fruCfg respond v ⟨d, tr⟩ id).out = .ok (some ((c.drop o).take (e - o))) ∧
+    multiArea c = some (some ((c.drop o).take (e - o))) := by
+  refine ⟨(getMultirecord_present fruCfg constants_ok d hd id c hid hg h64 hh v hv o e hpres hend ⟨d, tr⟩ rfl).1, ?_⟩
+  simp [multiArea, hpres, hend]
+
+/-- COUNTER-EXAMPLE (pinned source, the ordinary case of an inventory with an internal use area and no
+chassis area): `get_fru_chassis_area(fru_id=2)` does not stop behind the header read - the absent area's
+`None` offset makes `_read_fru_area` ask for the inventory size and read the whole inventory, twice (5 exchanges instead of 1),
+and the chassis parser is handed all 16 bytes, an "area" the device does not store.  Repaired: `None` after the
+one header read. -/
+theorem absent_area_as_pinned_returns_inventory :
+    areaStart [1, 1, 0, 0, 0, 0, 0, 0xFE, 1, 0xA1, 0xA2, 0xA3, 0xA4, 0xA5, 0xA6, 0xA7] .chassis = none ∧
+    (getInfoArea fruCfg respond Var.pinned ⟨boardlessDev, []⟩ .chassis 2).out
+      = .ok (some [1, 1, 0, 0, 0, 0, 0, 0xFE, 1, 0xA1, 0xA2, 0xA3, 0xA4, 0xA5, 0xA6, 0xA7]) ∧
+    ((getInfoArea fruCfg respond Var.pinned ⟨boardlessDev, []⟩ .chassis 2).w.trace.map (·.req.cmd))
+      = [0x11, 0x10, 0x11, 0x10, 0x11] ∧
+    readsWithinB 2 0 8 (getInfoArea fruCfg respond Var.pinned ⟨boardlessDev, []⟩ .chassis 2).w.trace = false ∧
+    (getInfoArea fruCfg respond (Var.intended true) ⟨boardlessDev, []⟩ .chassis 2).out = .ok none ∧
+    readsWithinB 2 0 8 (getInfoArea fruCfg respond (Var.intended true) ⟨boardlessDev, []⟩ .chassis 2).w.trace = true ∧
+    (getInfoArea fruCfg respond (Var.intended true) ⟨boardlessDev, []⟩ .chassis 2).w.trace.length = 1 := by decide
+
+/-- COUNTER-EXAMPLE (pinned source): `get_fru_multirecord_area(fru_id=2)` on the same inventory reads the
+whole inventory as a "record header" and ends in `TypeError` (`None += int`).  Repaired: `None`. -/
+theorem absent_multirecord_as_pinned_type_error :
+    (getMultirecord fruCfg respond Var.pinned ⟨boardlessDev, []⟩ 2).out = .pyError "TypeError" ∧
+    ((getMultirecord fruCfg respond Var.pinned ⟨boardlessDev, []⟩ 2).w.trace.map (·.req.cmd)) = [0x11, 0x10, 0x11] ∧
+    (getMultirecord fruCfg respond (Var.intended true) ⟨boardlessDev, []⟩ 2).out = .ok none := by decide
+
+/-- non-vacuity of `absent_area_is_none` / `present_area_exact`: FRU 2 of `boardlessDev` has a valid header and no
+chassis area; FRU 5 below has a chassis area of 8 bytes at offset 8 -/
+example : DevOk boardlessDev ∧ boardlessDev.get 2 = some [1, 1, 0, 0, 0, 0, 0, 0xFE, 1, 0xA1, 0xA2, 0xA3, 0xA4, 0xA5, 0xA6, 0xA7] ∧
+    headerOk [1, 1, 0, 0, 0, 0, 0, 0xFE, 1, 0xA1, 0xA2, 0xA3, 0xA4, 0xA5, 0xA6, 0xA7] ∧
+    areaStart [1, 1, 0, 0, 0, 0, 0, 0xFE, 1, 0xA1, 0xA2, 0xA3, 0xA4, 0xA5, 0xA6, 0xA7] (Area.spec .board) = none :=
+  ⟨⟨by decide, by decide, by decide⟩, by decide, ⟨by decide, by decide⟩, by decide⟩
+
+example :
+    let c := [1, 0, 1, 0, 0, 0, 0, 0xFE, 0x01, 0x01, 0x17, 0xC0, 0xC0, 0xC1, 0x00, 0xA6]
+    headerOk c ∧ areaStart c (Area.spec .chassis) = some 8 ∧ 8 + 5 ≤ c.length ∧ 8 + c.getD 9 0 * 8 ≤ c.length ∧
+    c.getD 9 0 ≠ 0 ∧
+    (getInfoArea fruCfg respond (Var.intended true) ⟨⟨[(5, c)], 3, 0xC9, false, 16⟩, []⟩ .chassis 5).out
+      = .ok (some [0x01, 0x01, 0x17, 0xC0, 0xC0, 0xC1, 0x00, 0xA6]) :=
+  ⟨⟨by decide, by decide⟩, by decide, by decide, by decide, by decide, by decide⟩
+
+/-- non-vacuity of `present_multirecord_exact`: two records (the first of length 2 without, the second of length
+1 with the end-of-list bit) at offset 8, then slack -/
+example :
+    let c := [1, 0, 0, 0, 0, 1, 0, 0xFE, 0x01, 0x02, 0x02, 0x00, 0xFB, 0x10, 0xF0, 0x02, 0x82, 0x01, 0xAB, 0xD0, 0x55, 0, 0, 0]
+    headerOk c ∧ areaStart c .multirecord = some 8 ∧ recordsEnd c (c.length + 1) 8 = some 21 ∧
+    (getMultirecord fruCfg respond (Var.intended true) ⟨⟨[(5, c)], 4, 0xC8, false, 16⟩, []⟩ 5).out
+      = .ok (some [0x01, 0x02, 0x02, 0x00, 0xFB, 0x10, 0xF0, 0x02, 0x82, 0x01, 0xAB, 0xD0, 0x55]) :=
+  ⟨⟨by decide, by decide⟩, by decide, by decide, by decide⟩
+
 /-- The operations of class `Fru` that transfer data. -/
 inductive Op where
-  | read (offset : Option Nat) (count : Nat)
+  | read (offset : Option Nat) (count : Option Nat)
   | full
   | write (data : List Nat) (offset : Nat)
   | header
@@ -74,31 +252,32 @@ inductive Op where
   | multirecord
   | inventory
 
-/-- The exchanges an operation performs for FRU `id` (intended variant of the multirecord read;
-`lenChk`: `_read_fru_area` rejects an area length byte 0, fixes/C15-2.diff). -/
-def Op.trace {σ} (send : Send σ) (lenChk : Bool) (dev : σ) (id : Nat) : Op → List Xchg
-  | .read o c => (readFruData fruCfg send ⟨dev, []⟩ o c id).w.trace
+/-- The exchanges an operation performs for FRU `id` in variant `v` of the source. -/
+def Op.trace {σ} (send : Send σ) (v : Var) (dev : σ) (id : Nat) : Op → List Xchg
+  | .read o c => (readFruDataV v.rangeFix fruCfg send ⟨dev, []⟩ o c id).w.trace
   | .full => (readFruDataFull fruCfg send ⟨dev, []⟩ id).w.trace
   | .write data off => (writeFruData fruCfg send ⟨dev, []⟩ data off id).w.trace
   | .header => (getHeader fruCfg send ⟨dev, []⟩ id).w.trace
-  | .area a => (getInfoArea fruCfg send lenChk ⟨dev, []⟩ a id).w.trace
-  | .multirecord => (getMultirecord fruCfg send false ⟨dev, []⟩ id).w.trace
-  | .inventory => (getInventory fruCfg send false lenChk ⟨dev, []⟩ id).w.trace
+  | .area a => (getInfoArea fruCfg send v ⟨dev, []⟩ a id).w.trace
+  | .multirecord => (getMultirecord fruCfg send v ⟨dev, []⟩ id).w.trace
+  | .inventory => (getInventory fruCfg send v ⟨dev, []⟩ id).w.trace
 
 /-- Every request of every operation — including each part of a full inventory read — carries
-the FRU id the caller named, whatever the peer answers. -/
-theorem requests_name_fru {σ} (send : Send σ) (lenChk : Bool) (dev : σ) (id : Nat) (hid : id < 256) (o : Op) :
-    ∀ x ∈ o.trace send lenChk dev id, x.req.payload.head? = some id := by
+the FRU id the caller named, whatever the peer answers, in every variant of the source that passes the FRU
+id on (fixes/C10-1.diff): with or without the area-length check, the absent-area guards, the range repair. -/
+theorem requests_name_fru {σ} (send : Send σ) (v : Var) (hv : v.mrShipped = false) (dev : σ) (id : Nat)
+    (hid : id < 256) (o : Op) :
+    ∀ x ∈ o.trace send v dev id, x.req.payload.head? = some id := by
   have h0 : Named id (⟨dev, []⟩ : World σ).trace := by intro x hx; cases hx
-  have key : Named id (o.trace send lenChk dev id) := by
+  have key : Named id (o.trace send v dev id) := by
     cases o with
-    | read off c => exact readFruData_named fruCfg send id _ off c h0
+    | read off c => exact readFruDataV_named v.rangeFix fruCfg send id _ off c h0
     | full => exact readFruData_named fruCfg send id _ none 0 h0
     | write data off => exact writeFruData_named fruCfg send id _ data off h0
     | header => exact getHeader_named fruCfg send id _ h0
-    | area a => exact getInfoArea_named fruCfg send lenChk id _ a h0
-    | multirecord => exact getMultirecord_named fruCfg send id _ h0
-    | inventory => exact getInventory_named fruCfg send lenChk id _ h0
+    | area a => exact getInfoArea_named fruCfg send v id _ a h0
+    | multirecord => exact getMultirecord_named fruCfg send v hv id _ h0
+    | inventory => exact getInventory_named fruCfg send v hv id _ h0
   intro x hx
   have := key x hx
   rwa [Nat.mod_eq_of_lt hid] at this
@@ -417,18 +596,18 @@ def demoDev : FruDev :=
 
 /-- As shipped, reading the multirecord area of FRU 1 sends requests that name FRU 0 … -/
 theorem multirecord_as_shipped_misaddresses :
-    ¬ (∀ x ∈ (getMultirecord fruCfg respond true ⟨demoDev, []⟩ 1).w.trace,
+    ¬ (∀ x ∈ (getMultirecord fruCfg respond ⟨true, true, false, false, false, false, false⟩ ⟨demoDev, []⟩ 1).w.trace,
         x.req.payload.head? = some 1) := by
   intro h
-  have : namedB 1 (getMultirecord fruCfg respond true ⟨demoDev, []⟩ 1).w.trace = true := by
+  have : namedB 1 (getMultirecord fruCfg respond ⟨true, true, false, false, false, false, false⟩ ⟨demoDev, []⟩ 1).w.trace = true := by
     rw [namedB_iff]; exact h
   revert this
   decide
 
 /-- … and hands the parser FRU 0's record instead of FRU 1's. -/
 theorem multirecord_as_shipped_wrong_data :
-    (getMultirecord fruCfg respond true ⟨demoDev, []⟩ 1).out = .ok [0x01, 0x82, 0x00, 0x00, 0x7D] ∧
-    (getMultirecord fruCfg respond false ⟨demoDev, []⟩ 1).out = .ok [0x02, 0x82, 0x01, 0xAB, 0xD0, 0x55] := by
+    (getMultirecord fruCfg respond ⟨true, true, false, false, false, false, false⟩ ⟨demoDev, []⟩ 1).out = .ok (some [0x01, 0x82, 0x00, 0x00, 0x7D]) ∧
+    (getMultirecord fruCfg respond Var.pinned ⟨demoDev, []⟩ 1).out = .ok (some [0x02, 0x82, 0x01, 0xAB, 0xD0, 0x55]) := by
   decide
 
 /-! ### non-vacuity -/
@@ -458,14 +637,14 @@ hands `b''` to the parser; with it the 5-byte read is followed by `DecodingError
 both naming FRU 5. -/
 example :
     let dev : FruDev := ⟨[(0, []), (5, [1, 0, 1, 0, 0, 0, 0, 0xFE, 0x01, 0x00, 0x17, 0xC0, 0xC0, 0xC1, 0x00, 0xA7])], 32, 0xCA, false, 16⟩
-    (getInfoArea fruCfg respond false ⟨dev, []⟩ .chassis 5).out = .ok [] ∧
-    (getInfoArea fruCfg respond true ⟨dev, []⟩ .chassis 5).out = .decodingError ∧
-    (getInfoArea fruCfg respond true ⟨dev, []⟩ .chassis 5).w.trace.length = 2 ∧
-    namedB 5 (getInfoArea fruCfg respond true ⟨dev, []⟩ .chassis 5).w.trace = true ∧
-    (getInventory fruCfg respond false true ⟨dev, []⟩ 5).out = .decodingError := by decide
+    (getInfoArea fruCfg respond (Var.intended false) ⟨dev, []⟩ .chassis 5).out = .ok (some []) ∧
+    (getInfoArea fruCfg respond (Var.intended true) ⟨dev, []⟩ .chassis 5).out = .decodingError ∧
+    (getInfoArea fruCfg respond (Var.intended true) ⟨dev, []⟩ .chassis 5).w.trace.length = 2 ∧
+    namedB 5 (getInfoArea fruCfg respond (Var.intended true) ⟨dev, []⟩ .chassis 5).w.trace = true ∧
+    (getInventory fruCfg respond (Var.intended true) ⟨dev, []⟩ 5).out = .decodingError := by decide
 
 /-- the intended multirecord read of FRU 1 names FRU 1 throughout (3 exchanges) -/
-example : namedB 1 (getMultirecord fruCfg respond false ⟨demoDev, []⟩ 1).w.trace = true ∧
-    (getMultirecord fruCfg respond false ⟨demoDev, []⟩ 1).w.trace.length = 3 := by decide
+example : namedB 1 (getMultirecord fruCfg respond Var.pinned ⟨demoDev, []⟩ 1).w.trace = true ∧
+    (getMultirecord fruCfg respond Var.pinned ⟨demoDev, []⟩ 1).w.trace.length = 3 := by decide
 
 end PyIpmi.Props.C10
